@@ -2,8 +2,11 @@ package sim
 
 import (
 	"math"
+	"sort"
 	"strconv"
 )
+
+func sortStrings(s []string) { sort.Strings(s) }
 
 // Rng is the one source of randomness of a run: splitmix64. Everything a run
 // decides is drawn from one Rng seeded with the run's seed.
